@@ -7,7 +7,7 @@
 From Coq Require Import Reals ZArith List.
 From Coq Require PrimFloat.
 From Celer Require Import Base.Num Base.NumR Base.NumF Base.Stream Base.Vec3
-  C15.Samplers C15.SamplersProofs C20.RotateVariants C20.Optical C20.RotateProofs C20.OpticalProofs C20.OpticalWitness C20.DndxProofs C20.SegmentIntegral.
+  C15.Samplers C15.SamplersProofs C20.RotateVariants C20.Optical C20.RotateProofs C20.OpticalProofs C20.OpticalWitness C20.DndxProofs C20.SegmentIntegral C20.DndxInside.
 Import ListNotations.
 Local Open Scope R_scope.
 
@@ -294,3 +294,55 @@ Theorem C20_seg_integral_closed_form : forall e0 e1 a b : R, e0 < e1 -> 0 < a ->
   seg_integral_is e0 e1 a b ((e1 - e0) / (a * b)).
 Proof. exact seg_integral_closed_form. Qed.
 Print Assumptions C20_seg_integral_closed_form.
+
+(** ** CerenkovDndxCalculator, threshold inside the table (n_j <= 1/beta < n_(j+1)) *)
+
+(** GenericCalculator inside segment j is that segment's linear interpolant *)
+Theorem C20_gcalc_in_segment : forall (xs ys : list R) j x, increasing xs = true -> (S j < length xs)%nat ->
+  nthT j xs <= x < nthT (S j) xs ->
+  gcalc xs ys x = interp (nthT j xs) (nthT j ys) (nthT (S j) xs) (nthT (S j) ys) x.
+Proof. exact gcalc_in_segment. Qed.
+Print Assumptions C20_gcalc_in_segment.
+
+(** consecutive entries of CerenkovParams' table differ by the segment trapezoid of 1/n^2 *)
+Theorem C20_angle_integral_nth_diff : forall e0 r0 (es ns : list R) j, length es = length ns ->
+  (S j < length (e0 :: es))%nat ->
+  nthT (S j) (angle_integral (e0 :: es) (r0 :: ns)) - nthT j (angle_integral (e0 :: es) (r0 :: ns))
+  = seg_T (nthT j (e0 :: es)) (nthT (S j) (e0 :: es)) (nthT j (r0 :: ns)) (nthT (S j) (r0 :: ns)).
+Proof. exact angle_integral_nth_diff. Qed.
+Print Assumptions C20_angle_integral_nth_diff.
+
+(** what the branch computes: full trapezoids above the crossing segment + (1 - t) of the crossing
+    segment's full trapezoid, t = (1/beta - n_j)/(n_(j+1) - n_j) *)
+Theorem C20_dndx_inside_grid : forall k e0 r0 es ns charge beta j,
+  material_ok (e0 :: es) (r0 :: ns) = true -> (S j < length (r0 :: ns))%nat -> 0 < r0 ->
+  nthT j (r0 :: ns) <= 1 / beta < nthT (S j) (r0 :: ns) ->
+  let E := e0 :: es in let N := r0 :: ns in let I := angle_integral E N in
+  let ib := 1 / beta in
+  let t := (ib - nthT j N) / (nthT (S j) N - nthT j N) in
+  dndx (T:=R) k E N charge beta = clamp_to_nonneg (charge * charge * k_dndx k *
+    (((back E - nthT (S j) E) - (back I - nthT (S j) I) * (ib * ib)
+      + (1 - t) * ((nthT (S j) E - nthT j E)
+                   - seg_T (nthT j E) (nthT (S j) E) (nthT j N) (nthT (S j) N) * (ib * ib))) * k_mev k)).
+Proof. exact dndx_inside_grid. Qed.
+Print Assumptions C20_dndx_inside_grid.
+
+(** the two interpolations as coded on the crossing segment, and the relation to the exact integral of
+    1 - 1/(n(E)^2 beta^2) from the crossing point (n = 1/beta) to e1 for linear n: coded <= exact, 0 <= exact *)
+Theorem C20_crossing_segment_value : forall e0 e1 a b ib I0 : R, e0 < e1 -> 0 < a -> a <= ib < b ->
+  let t := (ib - a) / (b - a) in
+  let emin := interp a e0 b e1 ib in
+  let ilin := interp e0 I0 e1 (I0 + seg_T e0 e1 a b) emin in
+  0 <= t < 1 /\ emin = e0 + t * (e1 - e0) /\ e0 <= emin < e1 /\
+  ilin = I0 + t * seg_T e0 e1 a b /\
+  (e1 - emin) - (I0 + seg_T e0 e1 a b - ilin) * (ib * ib)
+    = (1 - t) * ((e1 - e0) - seg_T e0 e1 a b * (ib * ib)).
+Proof. exact crossing_segment_value. Qed.
+Print Assumptions C20_crossing_segment_value.
+
+Theorem C20_crossing_segment_le_exact : forall e0 e1 a b ib : R, e0 < e1 -> 0 < a -> a <= ib < b ->
+  let t := (ib - a) / (b - a) in
+  (1 - t) * ((e1 - e0) - seg_T e0 e1 a b * (ib * ib)) <= (1 - t) * (e1 - e0) * (1 - ib / b) /\
+  0 <= (1 - t) * (e1 - e0) * (1 - ib / b).
+Proof. exact crossing_segment_le_exact. Qed.
+Print Assumptions C20_crossing_segment_le_exact.
